@@ -65,7 +65,12 @@ func IDs() []string {
 }
 
 // VerifDir is the root of the verification tree.
-var VerifDir = "/verif"
+var VerifDir = func() string {
+	if d := os.Getenv("VERIF_DIR"); d != "" {
+		return d
+	}
+	return "/verif"
+}()
 
 type workerOut struct {
 	Phases map[string]*Stats `json:"phases"`
